@@ -50,6 +50,7 @@ class Ctx:
         self.tie_problems = []        # broken correspondence (mismatch, driver does not build, ...)
         self.violations = []          # concrete failing inputs from the direct oracle
         self.known_seen = []          # open known findings reproduced in this run
+        self.infra_restarts = []      # driver runs repeated after a panic of the server that is outside the properties
         self.obligations = 0
         self.discharged = 0
         self.assumptions = []
@@ -227,6 +228,18 @@ class Ctx:
         t = time.time()
         p = subprocess.run(cmd, cwd=REPO, env=e, stdout=subprocess.PIPE, stderr=subprocess.STDOUT, text=True)
         self.log("driver %s %s: rc=%d %.1fs" % (pkg_rel, run, p.returncode, time.time() - t))
+        # A panic of the server under test that is no part of any property here (it kills the whole driver process):
+        # Server.Stop() racing with a leadership notification makes the single-node server try a leadership transfer
+        # ("cannot find peer") and panic.  The run is repeated once, with the same seed, and the restart is recorded.
+        for sig in INFRA_PANICS:
+            if p.returncode != 0 and sig in p.stdout:
+                self.infra_restarts.append({"driver": run, "panic": sig})
+                if os.path.exists(outp):
+                    os.remove(outp)
+                t = time.time()
+                p = subprocess.run(cmd, cwd=REPO, env=e, stdout=subprocess.PIPE, stderr=subprocess.STDOUT, text=True)
+                self.log("driver %s %s (repeated after %r): rc=%d %.1fs" % (pkg_rel, run, sig, p.returncode, time.time() - t))
+                break
         lines = []
         if os.path.exists(outp):
             with open(outp) as f:
@@ -305,6 +318,7 @@ class Ctx:
             "samples": samples,
             "traces_validated_against_impl": traces,
             "known_findings_seen": [k["sig"] for k in self.known_seen],
+            "driver_runs_repeated_after_server_panic": self.infra_restarts,
             "proof_problems": self.proof_problems[:5],
             "tie_problems": [t["what"] for t in self.tie_problems][:5],
         })
@@ -336,6 +350,9 @@ def strip_comments(src):
                 out.append("\n")
             i += 1
     return "".join(out)
+
+
+INFRA_PANICS = ["panic: error on metadata leadership step down: cannot find peer"]
 
 
 def load_known():
